@@ -232,7 +232,7 @@ def _merge(cset):
     content = cset[0]
     mode = W.mcs.get(content, pipe.MCS_FAIL)
     if mode == pipe.MCS_MERGE_RAISE or (_STATE["faults_on"] and _STATE["plan"].get((content, "merge", None)) == JOB_RAISE):
-        raise ValueError("merge failed (stub)")
+        raise pipe.MergeFailure("merge failed (stub)")
     return pipe._MergeResult(W.merge_tok.get(content, "M"))
 
 
